@@ -39,7 +39,7 @@ K, J = 5, 9
 def plan(tier, seed):
     n = 8
     shards = [{"kind": "exhaustive", "maxlen": 3 if tier == "quick" else 4, "part": i, "parts": n} for i in range(n)]
-    shards += [{"kind": "random", "histories": 40 if tier == "quick" else 400, "length": 40, "cs": seed * 100 + i} for i in range(4)]
+    shards += [{"kind": "random", "histories": 40 if tier == "quick" else 2000, "length": 40, "cs": seed * 100 + i} for i in range(4)]
     shards += [{"kind": "waits", "rounds": 6 if tier == "quick" else 40, "cs": seed}]
     return shards
 
